@@ -212,23 +212,19 @@ def run(idx, rep, tier):
         if call is None:
             continue
         construct = f"{ci.name}.__call__"
-        verdict, why = None, "no call of a routine with a key parameter found"
-        for c in df.calls(call.node):
-            r = idx.resolve_expr(ci.module, c.func, call)
-            if r is None or r.kind != "funcs":
-                continue
-            callee = r.val[-1]
-            allp = callee.params + [a.arg for a in callee.node.args.kwonlyargs]
-            if "key" not in allp:
-                if callee.node.args.kwarg is None:
-                    continue
-            star = any(k.arg is None and ast.unparse(k.value) == "self.__dict__" for k in c.keywords)
-            named = any(k.arg == "key" and ast.unparse(k.value) == "self.key" for k in c.keywords)
-            if star or named:
-                verdict, why = True, f"forwards the key to {callee.short} ({'**self.__dict__' if star else 'key=self.key'})"
-            else:
-                verdict, why = False, f"calls {callee.short} (which takes `key`) without forwarding self.key"
-            break
+        # decided by the option-passthrough reading of the call (positional, keyword, **self.__dict__, ** of a mapping of every
+        # declared field, also through a method): a call that leaves the callee's `key` unbound is refuted; a key that travels
+        # through a helper this reading does not interpret is undecided, never refuted
+        from sa.autorule import option_passthrough
+        res_ = [x for x in option_passthrough(idx, rep, call, ("key", ), report=False) if x[1].endswith(":key")]
+        if not res_:
+            verdict, why = None, "no call of a routine with a key parameter found (or the key travels through a helper that is not interpreted)"
+        elif any(x[0] is False for x in res_):
+            verdict, why = False, next(x[2] for x in res_ if x[0] is False)
+        elif all(x[0] is True for x in res_):
+            verdict, why = True, "; ".join(sorted({x[2] for x in res_}))
+        else:
+            verdict, why = None, next(x[2] for x in res_ if x[0] is None)
         rep.decide(verdict, "key-forward", construct, why, locs=[idx.loc(ci.module, call.node)])
 
     # ------------------------------------------------------------ clause 5: key derivation
